@@ -17,6 +17,9 @@ AccStep == /\ \E ev \in {"AccWait", "TokenTake", "AccRevokedInWait", "AccRevoked
                          "AcceptLoopReturned", "StoppedSending", "TokenReturn"} : Try(Ev(ev, 0, 0))
            /\ UNCHANGED <<nport, reqs, accErrs>>
 AccAccepted == Try(Ev("AccAccepted", nport, 0)) /\ nport' = nport + 1 /\ UNCHANGED <<reqs, accErrs>>
+\* the loop created the connection's permit and then found its own revoked: the connection is dropped, the loop returns
+AccRevokedAfterAccept == /\ ~SubPermitRace /\ \E a \in sv.accepted : Try(Ev("AccRevokedAfterAccept", a, 0))
+                         /\ UNCHANGED <<nport, reqs, accErrs>>
 \* ---- connection tasks ----
 ConnStep == \/ /\ \E a \in sv.accepted : Try(Ev("ConnBegin", a, 0))
                /\ UNCHANGED <<nport, reqs, accErrs>>
@@ -33,7 +36,7 @@ EnvStep == \/ /\ nport + sv.backlog <= MaxConnects /\ ~sv.loopReturned /\ Try(Ev
            \/ /\ sv.revoked = 1 /\ Try(Ev("RevokeDone", 0, 0)) /\ UNCHANGED <<nport, reqs, accErrs>>
            \/ /\ accErrs < MaxAcceptErrs /\ Try(Ev("AccAcceptErr", 0, 0)) /\ accErrs' = accErrs + 1 /\ UNCHANGED <<nport, reqs>>
            \/ /\ ~sv.stoppedSeen /\ Try(Ev("StoppedReceived", 0, 0)) /\ UNCHANGED <<nport, reqs, accErrs>>
-Next == AccStep \/ AccAccepted \/ ConnStep \/ EnvStep
+Next == AccStep \/ AccAccepted \/ AccRevokedAfterAccept \/ ConnStep \/ EnvStep
 Spec == Init /\ [][Next]_vars /\ WF_vars(AccStep)
 \* ---- properties ----
 LimitInv == Limit(sv)
